@@ -687,3 +687,4 @@ EVIDENCE = {"C07": {
                     "a file my strict parser rejects but the lenient reader accepts is probe-counted only",
                     "the public API is driven with path names (SimFS paths), not in-memory streams"],
 }}
+REQUIRED_PROBES = {"C07": ["must_raise_judged", "damaged_exact_judged", "per_recording_degrees_alone"]}
